@@ -615,8 +615,8 @@ class HedTag:
         if self.is_placeholder():
             if self._schema_entry:
                 self._extension_value = self._extension_value.replace("#", placeholder_value)
-            else:
-                self._tag = self.tag.replace("#", placeholder_value)
+            # Keep the text form in step with the value (org_base_tag is derived from it)
+            self._tag = self.tag.replace("#", placeholder_value)
 
     def __hash__(self):
         if self._schema_entry:
